@@ -7,6 +7,14 @@ ROOT = os.path.dirname(os.path.dirname(os.path.abspath(__file__)))
 ALL = [f"C{i:02d}" for i in range(1, 21)]
 
 CLAIMED = {
+    "C04": dict(
+        text="Bounded symbolic execution (CrossHair/z3) of the real Permission.is_parent / User.get_permissions on symbolic permission paths and targets against an "
+             "independent longest-prefix rule, and of the 13 permission-checked handlers through the real dispatcher with six symbolic permission bits and alias "
+             "arguments: refused with exactly 550, tree/cwd unchanged and no mutating backend call iff the entry governing the reference-resolved target lacks the bit.",
+        note="Trusted: CrossHair/z3, SpyPathIO ledger, the reference resolver and longest-prefix oracle. Outside: tables with more than three entries, paths beyond the {a,b} alphabet and depth bound.",
+        technique="bounded symbolic execution of the real Python code (CrossHair 0.0.110 + z3): differential harness against a longest-prefix oracle",
+        design_ref="DESIGN.md section 3 C04",
+    ),
     "C02": dict(
         text="Bounded symbolic execution (CrossHair/z3) of the real Server.get_paths on symbolic path strings (character level) and on segment products over "
              "class representatives ('..', '.', '', backslash, drive / UNC shapes, '//' leads) for five base-path flavours, against an independent stack-machine "
